@@ -110,6 +110,10 @@ def run(chk: Check) -> None:
     _typestate(sub, chk.repo.cls("AuxData"))
     _to_protobuf(sub, chk.repo.cls("AuxData"))
     chk.adopt(sub, None, "R08.4")
+    from .c07 import _tree_dispatch
+    sub = chk.sub()
+    _tree_dispatch(sub, cf)
+    chk.adopt(sub, None, "R08.4")
     encode_stream(chk, "R08.4")
     codec_state(chk, "R08.5")
     no_result_caches(chk, "R08.5")
